@@ -15,6 +15,8 @@ Streams
                  solution): the real code raises; returning there is a failure.  Every GEKKO `solve` is wrapped: a run that
                  RETURNS although some solve did not report success (APPSTATUS != 1) fails `returned-without-solver-success`;
                  a captured answer outside SolverPost (beyond 1e-6) in a returned run fails too (no longer excused).
+                 Fourth family "pulled": wide dies (8x2, 12x3), a soft module tied by a heavy net / alpha 0.9-0.99 to a fixed
+                 module in a far upper corner (centre variables pushed against their bounds).
   loop-live      the observed sequence of must_be_refined / refine / optimize_allocation calls of each run replayed
                  through the model's loop `loopG` (driver op `loop`): loop structure, incl. "optimise before stopping".
   extract-live   every `extract_solution` call of those runs: captured answer -> Lean `extractSolution` (Float) vs what
@@ -615,6 +617,31 @@ def gen_infeasible(rng, idx: int) -> dict:
             "order": order, "nets": [["A", "B"], ["B", "C"]], "refine": {"grid": [g, g]},
             "thr": rng.choice([0.5, 0.6, 0.7, 0.8, 0.8, 0.9, 0.95]), "alpha": rng.choice([0.1, 0.3, 0.5]),
             "max_iter": rng.choice([1, 1, 2])}
+
+
+def gen_pulled(rng, idx: int) -> dict:
+    """wide die (8x2 / 12x3), a fixed module in an upper corner and a soft module at the far end of the upper half, tied
+    to it by a heavy net at a high alpha: the wire-length term pulls the soft module's centre hard against its bounds —
+    which must be the die's in BOTH directions (x/y mix-ups of the centre bounds show as a centre outside the die)."""
+    W, H = rng.choice([(8, 2), (8, 2), (12, 3)])
+    s_ = H / 2
+    right = rng.random() < 0.7
+    fx = W - s_ / 2 if right else s_ / 2
+    modules = {"M": {"area": round(rng.choice([1, 1, 1.5]) * s_ * s_, 3), "center": [s_ if right else W - s_, 1.5 * s_]},
+               "F": {"fixed": True, "rectangles": [[fx, 1.5 * s_, s_, s_]]}}
+    order = ["M", "F"]
+    if rng.random() < 0.5:
+        alpha, wgt = 0.9, rng.choice([10, 20, 40])
+    else:
+        alpha, wgt = 0.99, rng.choice([1, 2])
+    nets = [["M", "F", wgt]]
+    if rng.random() < 0.4:
+        modules["S"] = {"area": round(1.5 * s_ * s_, 3), "center": [W / 2 - s_, 0.6 * s_]}
+        order.append("S")
+        nets.append(["S", "F"])
+    return {"idx": idx, "family": "pulled", "die": {"width": W, "height": H, "regions": []}, "modules": modules,
+            "order": order, "nets": nets, "refine": {"split": [2.0, rng.choice([12, 16])]},
+            "thr": rng.choice([0.9, 0.95]), "alpha": alpha, "max_iter": rng.choice([2, 2, 3])}
 
 
 def _yaml(obj) -> str:
@@ -1220,6 +1247,7 @@ def run(ctx: Ctx) -> None:
     insts = [gen_instance(ctx.rng, i) for i in range(n_runs)]
     insts += [gen_settled(ctx.rng, n_runs + i) for i in range(ctx.n(16, 120))]
     insts += [gen_infeasible(ctx.rng, len(insts) + i) for i in range(ctx.n(8, 40))]
+    insts += [gen_pulled(ctx.rng, len(insts) + i) for i in range(ctx.n(4, 24))]
     n_runs = len(insts)
     outs = run_instances(insts)
     status: dict[str, int] = {}
